@@ -25,10 +25,10 @@ def _build_req(gw, rl):
 
 
 def groups():
-    return [Group('parseB_requests', ['C15'], 'Theo::parse, collection of the file requests between the calls of Theo::scan and Theo::extract_macros (Compiler/src/parse.cpp)',
+    return [Group('parseB_requests', ['C15', 'C02'], 'Theo::parse, collection of the file requests between the calls of Theo::scan and Theo::extract_macros (Compiler/src/parse.cpp)',
                   'c_parse_requests', _build_req, timeout=600,
                   bounded='BOUNDED stand-in: at most 3 scanner errors (vector capacity 4, --unwind 6 with unwinding assertions)',
                   note='std::for_each over a lambda rewritten to the equivalent iterator loop (N19)'),
-            Group('parseB_head', ['C15'], 'Theo::parse, head up to the call of Theo::scan (Compiler/src/parse.cpp)', 'c_parse_head', _build, timeout=600,
+            Group('parseB_head', ['C15', 'C02'], 'Theo::parse, head up to the call of Theo::scan (Compiler/src/parse.cpp)', 'c_parse_head', _build, timeout=600,
                   bounded='BOUNDED stand-in: at most 3 supplied files (map capacity 5, lookups by complete linear search, --unwind 8 with unwinding assertions)',
                   note='Theo::scan replaced by a contract that records its arguments')]
